@@ -15,7 +15,10 @@ def build(spec):
     if spec.get('eos'):
         from exactpack.solvers.nohblackboxeos.equations_of_state.eos_library import ideal_gas_eos
         pos = [ideal_gas_eos(spec['eos'])]
-    return cls(*pos, **spec['params'])
+    s = cls(*pos, **spec['params'])
+    if spec.get('guess'):
+        s.set_new_solver_initial_guess(spec['guess'])     # a guess in the basin of the physical root (the default converges to a spurious one)
+    return s
 
 def run(spec, s=None):
     s = s or build(spec)
@@ -120,7 +123,8 @@ def specs(rng, tier):
             dict(module=E + 'heat.rod1d', **{'class': 'Rod1D'}, params={}, pts=P(0.05, 0.95), t=0.05, elementwise=True),
             dict(module=E + 'kenamond.kenamond2', **{'class': 'Kenamond2'}, params={}, pts=[[round(rng.uniform(-8, 8), 3), round(rng.uniform(-8, 8), 3)] for _ in range(5)], t=0.0, elementwise=True),
             dict(module=E + 'sdrz.sdrz', **{'class': 'SteadyDetonationReactionZone'}, params={}, pts=P(0.0, 0.01), t=1.0e-6),
-            dict(module=E + 'nohblackboxeos.blackboxnoh', **{'class': 'SphericalNohBlackBox'}, params={}, eos=gam(), pts=P(0.05, 1.0), t=0.6),
+            dict(module=E + 'nohblackboxeos.blackboxnoh', **{'class': 'SphericalNohBlackBox'}, params={}, eos=gam(), guess=[60.0, 0.5, 0.3], pts=P(0.05, 1.0), t=0.6),
+            dict(module=E + 'nohblackboxeos.blackboxnoh', **{'class': 'PlanarNohBlackBox'}, params={}, eos=gam(), guess=[5.0, 0.5, 0.25], pts=P(0.05, 1.0), t=0.6),
         ]
     rng.shuffle(out)
     return out
